@@ -1116,6 +1116,21 @@ func getRootPrefix(e *Entry) *Value {
 	return nil
 }
 
+// findSchemaNode finds the node that the schema node identifier path denotes,
+// as Find does. The steps of an absolute schema node identifier are node names
+// (RFC 7950 6.5): one with a "." or ".." step, which Find follows as it does
+// in relative paths, denotes no schema node.
+func (e *Entry) findSchemaNode(path string) *Entry {
+	if strings.HasPrefix(path, "/") {
+		for _, step := range strings.Split(path, "/") {
+			if step == "." || step == ".." {
+				return nil
+			}
+		}
+	}
+	return e.Find(path)
+}
+
 // Augment processes augments in e, return the number of augments processed
 // and the augments skipped.  If addErrors is true then missing augments will
 // generate errors.
@@ -1130,7 +1145,7 @@ func (e *Entry) Augment(addErrors bool) (processed, skipped int) {
 	// progress)
 	var unapplied []*Entry
 	for _, a := range e.Augments {
-		target := a.Find(a.Name)
+		target := a.findSchemaNode(a.Name)
 		if target == nil {
 			if addErrors {
 				e.errorf("%s: augment %s not found", Source(a.Node), a.Name)
@@ -1203,7 +1218,7 @@ func (e *Entry) ApplyDeviate(deviateOpts ...DeviateOpt) []error {
 	var errs []error
 	appendErr := func(err error) { errs = append(errs, err) }
 	for _, d := range e.Deviations {
-		deviatedNode := e.Find(d.DeviatedPath)
+		deviatedNode := e.findSchemaNode(d.DeviatedPath)
 		if deviatedNode == nil {
 			appendErr(fmt.Errorf("cannot find target node to deviate, %s", d.DeviatedPath))
 			continue
